@@ -455,9 +455,8 @@ def decode_binary(data: bytes, ver: int, uni: str) -> list:
     return els
 
 
-def compare_wire(doc: dict, data: bytes, cfg: dict) -> None:
+def compare_wire(doc: dict, els: list, cfg: dict) -> None:
     """The bytes srctools wrote, decoded by the harness, must describe the specification bit-exactly."""
-    els = decode_binary(data, cfg['ver'], cfg['uni'])
     spec_to_wire: dict[int, int] = {}
     wire_to_spec: dict[int, int] = {}
     work = [(0, 0, 'root')]
@@ -505,3 +504,813 @@ def compare_wire(doc: dict, data: bytes, cfg: dict) -> None:
                     raise WireError('value', f'{apath}[{n}]: bytes {g.hex()}, expected {wire_bytes(vt, x).hex()} ({x!r})')
     if len(els) != len(spec_to_wire):
         raise WireError('element_table', f'{len(els)} element records for {len(spec_to_wire)} reachable elements')
+
+
+# ---------------------------------------------------------------------------------------------
+# features -> document
+
+RESERVED = {'name', 'id', 'subkeys', 'value'}
+ROLES = ['eltype', 'elname', 'attr', 'child_type', 'child_name', 'link_s', 'link_a']
+GTYPES = ('DmeA', 'DmeB', 'DmeA')      # elements 0 and 2 share a type string (string-table sharing)
+
+
+def strclass(s: str) -> str:
+    if s == '':
+        return 'empty'
+    for ch, nm in (('"', 'quote'), ('\\', 'bslash'), ('\n', 'newline'), ('\r', 'newline'), ('\t', 'tab')):
+        if ch in s:
+            return nm
+    if not s.isascii():
+        return 'nonascii'
+    if "'" in s:
+        return 'squote'
+    if ' ' in s:
+        return 'space'
+    if s.casefold() in RESERVED:
+        return 'reserved_' + s.casefold() + ('' if s == s.casefold() else '_cased')
+    if s != s.lower():
+        return 'upper'
+    return 'plain'
+
+
+def graph_targets(g):
+    for i, attrs in enumerate(g):
+        for shape, tg in attrs:
+            for t in ([tg] if shape == 's' else tg):
+                yield i, t
+
+
+def canon_graph(g):
+    """Drop unreachable elements, number elements and stubs in the order export discovers them."""
+    order = [0]
+    smap: dict[str, str] = {}
+    k = 0
+    while k < len(order):
+        for shape, tg in g[order[k]]:
+            for t in ([tg] if shape == 's' else tg):
+                if isinstance(t, int):
+                    if t not in order:
+                        order.append(t)
+                elif t != 'N' and t not in smap:
+                    smap[t] = 'S%d' % len(smap)
+        k += 1
+    emap = {old: new for new, old in enumerate(order)}
+
+    def m(t):
+        return emap[t] if isinstance(t, int) else smap.get(t, t)
+    return [[[shape, m(tg) if shape == 's' else [m(t) for t in tg]] for shape, tg in g[old]] for old in order]
+
+
+def graph_tags(g) -> list:
+    tags = set()
+    edges: dict[int, set] = {i: set() for i in range(len(g))}
+    indeg = [0] * len(g)
+    for i, attrs in enumerate(g):
+        for shape, tg in attrs:
+            ts = [tg] if shape == 's' else tg
+            if shape == 'a' and len(ts) != len({core.jdump(t) for t in ts}):
+                tags.add('dup')
+            for t in ts:
+                if t == 'N':
+                    tags.add('null')
+                elif isinstance(t, str):
+                    tags.add('stub')
+                elif t == i:
+                    tags.add('self')
+                else:
+                    edges[i].add(t)
+                    indeg[t] += 1
+    if any(d > 1 for d in indeg[1:]):
+        tags.add('shared')
+
+    def reach(a, b, seen):
+        return any(x == b or (x not in seen and not seen.add(x) and reach(x, b, seen)) for x in edges[a])
+    if any(reach(i, i, set()) for i in range(len(g))):
+        tags.add('cycle')
+    return sorted(tags) or ['plain']
+
+
+def fclass(f) -> str:
+    if f[0] == 'val':
+        _, vt, shape, payload = f
+        if shape == 's':
+            tag = TAG_OF[vt].get(core.jdump(payload), 'other')
+        else:
+            tag = ','.join(TAG_OF[vt].get(core.jdump(p), 'other') for p in payload) or 'empty'
+        return f'val:{vt}:{shape}:{tag}'
+    if f[0] == 'name':
+        return f'name:{f[1]}:{strclass(f[2])}'
+    if f[0] == 'graph':
+        return 'graph:' + ','.join(graph_tags(f[1]))
+    if f[0] == 'namekey':
+        return 'namekey_cased'
+    raise AssertionError(f)
+
+
+def cause_of(feats) -> str:
+    return ' & '.join(sorted(fclass(f) for f in feats)) or 'base'
+
+
+def compose(feats):
+    """feature list -> document, or None when the combination is outside the representable space."""
+    graphs = [f for f in feats if f[0] == 'graph']
+    if len(graphs) > 1:
+        return None
+    if graphs:
+        els = []
+        for i, attrs in enumerate(graphs[0][1]):
+            if len(attrs) > 2:
+                return None
+            a = [['pq'[k], VT_ELEMENT, shape, tg] for k, (shape, tg) in enumerate(attrs)]
+            a.append(['z', 'int', 's', 10 + i])
+            els.append({'t': GTYPES[i % 3], 'n': f'e{i}', 'a': a})
+    else:
+        els = [{'t': 'DmeRoot', 'n': 'root', 'a': []}]
+    root = els[0]
+    for k, f in enumerate(feats):
+        if f[0] == 'val':
+            root['a'].append([f'v{k}', f[1], f[2], f[3]])
+    roles = [f[1] for f in feats if f[0] == 'name']
+    if len(roles) != len(set(roles)):
+        return None
+    if any(r.startswith(('child', 'link')) for r in roles) and not graphs:
+        els.append({'t': 'DmeKid', 'n': 'kid1', 'a': [['z', 'int', 's', 1]]})
+        els.append({'t': 'DmeKid', 'n': 'kid2', 'a': [['z', 'int', 's', 2]]})
+        root['a'].insert(0, ['d', VT_ELEMENT, 'a', [2]])
+        root['a'].insert(0, ['c', VT_ELEMENT, 's', 1])
+    for f in feats:
+        if f[0] == 'namekey':
+            root['nk'] = f[1]
+            if f[1].casefold() != 'name' or f[1] == 'name':
+                return None
+        if f[0] != 'name':
+            continue
+        _, role, s = f
+        if '\0' in s:
+            return None
+        if role == 'eltype':
+            root['t'] = s
+        elif role == 'elname':
+            root['n'] = s
+        elif role == 'attr':
+            vals = [a for a in root['a'] if a[0].startswith('v') and a[1] != VT_ELEMENT]
+            if vals:
+                vals[-1][0] = s
+            else:
+                root['a'].append([s, 'int', 's', 5])
+        elif role in ('child_type', 'child_name'):
+            if len(els) < 2:
+                return None
+            for el in els[1:]:
+                el['t' if role == 'child_type' else 'n'] = s
+        else:
+            want = 's' if role == 'link_s' else 'a'
+            links = [a for a in root['a'] if a[1] == VT_ELEMENT and a[2] == want]
+            if not links:
+                return None
+            links[0][0] = s
+    for el in els:
+        keys = [a[0].casefold() for a in el['a']]
+        if 'name' in keys or len(keys) != len(set(keys)):
+            return None          # `name` is the element's name slot; an element cannot hold two keys equal under casefold
+    return {'els': els}
+
+
+def reductions(feats):
+    """One-step smaller feature lists, deterministic order (may be invalid: compose() decides)."""
+    for i in range(len(feats)):
+        yield feats[:i] + feats[i + 1:]
+    for i, f in enumerate(feats):
+        def rep(nf):
+            return feats[:i] + [nf] + feats[i + 1:]
+        if f[0] == 'val' and f[2] == 'a':
+            for k in range(len(f[3])):
+                yield rep(['val', f[1], 'a', f[3][:k] + f[3][k + 1:]])
+        elif f[0] == 'name':
+            for k in range(len(f[2])):
+                yield rep(['name', f[1], f[2][:k] + f[2][k + 1:]])
+        elif f[0] == 'graph':
+            g = f[1]
+            for e, attrs in enumerate(g):
+                for k, (shape, tg) in enumerate(attrs):
+                    ng = [list(a) for a in g]
+                    ng[e] = attrs[:k] + attrs[k + 1:]
+                    yield rep(['graph', canon_graph(ng)])
+                    if shape == 'a':
+                        for x in range(len(tg)):
+                            ng = [list(a) for a in g]
+                            ng[e] = attrs[:k] + [['a', tg[:x] + tg[x + 1:]]] + attrs[k + 1:]
+                            yield rep(['graph', canon_graph(ng)])
+
+
+# ---------------------------------------------------------------------------------------------
+# one document under one configuration
+
+def cfg_key(cfg: dict) -> str:
+    if cfg['enc'] == 'bin':
+        return f"bin{cfg['ver']}/{cfg['uni']}"
+    return f"kv2{'/flat' if cfg['flat'] else ''}{'/cull' if cfg['cull'] else ''}/{cfg['uni']}"
+
+
+def run_doc(doc: dict, cfg: dict):
+    """-> (status, [(kind, what, detail)]).  Executes build -> export -> parse -> compare on the real code."""
+    root = build(doc)
+    why_not = inexpressible(doc, cfg)
+    buf = io.BytesIO()
+    try:
+        if cfg['enc'] == 'bin':
+            root.export_binary(buf, version=cfg['ver'], unicode=cfg['uni'])
+        else:
+            root.export_kv2(buf, flat=cfg['flat'], cull_uuid=cfg['cull'], unicode=cfg['uni'])
+    except Exception as exc:  # noqa: BLE001
+        if why_not:
+            return 'rejected', []
+        return 'export_raised', [('export_raised', type(exc).__name__,
+                                  f'export raised {type(exc).__name__}: {exc} although {cfg_key(cfg)} can express the document')]
+    data = buf.getvalue()
+    if why_not:
+        return 'inexpressible_exported', [('inexpressible_exported', why_not,
+                                           f'export under {cfg_key(cfg)} did not raise ({why_not}); wrote {data[-120:]!r}')]
+    fails = []
+    status = 'ok'
+    if cfg['enc'] == 'bin':
+        try:
+            wire = decode_binary(data, cfg['ver'], cfg['uni'])
+        except WireError as exc:
+            # a stream that cannot be decoded goes wrong at an arbitrary later point: one coarse class
+            fails.append(('wire_mismatch', 'undecodable',
+                          f'independent decode of the written stream failed ({exc.what}): {exc.detail}\n stream tail: {data[-160:]!r}'))
+        else:
+            try:
+                compare_wire(doc, wire, cfg)
+            except WireError as exc:
+                fails.append(('wire_mismatch', exc.what, f'independently decoded stream differs from the source: {exc.detail}'))
+    try:
+        parsed, fmt_name, fmt_ver = Element.parse(io.BytesIO(data), unicode=cfg['uni'] == 'silent')
+    except Exception as exc:  # noqa: BLE001
+        tail = data[-160:] if cfg['enc'] == 'bin' else data[-400:]
+        # the exception type depends on where a misaligned read happens to stop: one coarse class
+        fails.append(('parse_raised', 'error',
+                      f'Element.parse of the exported file raised {type(exc).__name__}: {str(exc)[:300]}\n exported tail: {tail!r}'))
+        return 'parse_raised', fails
+    if (fmt_name, fmt_ver) != ('dmx', 1):
+        fails.append(('header_mismatch', 'format', f'format name/version read back as {(fmt_name, fmt_ver)!r}'))
+    try:
+        compare_graph(doc, parsed, cfg)
+    except Mismatch as exc:
+        tail = b'' if cfg['enc'] == 'bin' else data[-400:]
+        fails.append(('graph_mismatch', exc.what, f'{exc.detail}' + (f'\n exported tail: {tail!r}' if tail else '')))
+        status = 'mismatch'
+    return status, fails
+
+
+_CACHE: dict[str, tuple] = {}
+
+
+def eval_feats(feats, cfg):
+    key = core.jdump([feats, cfg])
+    hit = _CACHE.get(key)
+    if hit is None:
+        doc = compose(feats)
+        hit = ('invalid', []) if doc is None else run_doc(doc, cfg)
+        if len(_CACHE) > 300000:
+            _CACHE.clear()
+        _CACHE[key] = hit
+    return hit
+
+
+def minimize(feats, cfg, kind: str, what: str):
+    cur = feats
+    while True:
+        for cand in reductions(cur):
+            if any(k == kind and w == what for k, w, _ in eval_feats(cand, cfg)[1]):
+                cur = cand
+                break
+        else:
+            return cur
+
+
+def check_dmx(acc: core.Acc, feats, cfg) -> None:
+    status, fails = eval_feats(feats, cfg)
+    assert status != 'invalid', feats
+    acc.evaluations += 1
+    if status in ('ok', 'mismatch'):
+        acc.nontrivial += 1
+    acc.outcome((cfg_key(cfg), status, tuple(sorted({k + ':' + w for k, w, _ in fails}))))
+    acc.count('dmx_' + status)
+    for kind, what, detail in fails:
+        small = minimize(feats, cfg, kind, what)
+        cause = cause_of(small)
+        case = {'fam': 'dmx', 'feats': feats, 'cfg': cfg}
+        acc.fail(kind, case,
+                 f'{cfg_key(cfg)} features={core.jdump(feats)}\n {detail}\n minimal failing features: {core.jdump(small)}'
+                 f'\n document: {core.jdump(compose(feats))[:600]}',
+                 enc=cfg['enc'], what=what, cause=cause)
+
+
+# ---------------------------------------------------------------------------------------------
+# the family of small element graphs, generated directly in canonical (discovery-order) form
+
+def _gen_targets(n: int, d: int, st: int, nmax: int, budget: int):
+    """All target tuples of length n; yields (targets, discovered, stubs_seen)."""
+    if n == 0:
+        yield [], d, st
+        return
+    if budget <= 0:
+        return
+    opts = [(t, d, st) for t in range(d)]
+    if d < nmax:
+        opts.append((d, d + 1, st))
+    opts.append(('N', d, st))
+    opts += [('S%d' % k, d, st) for k in range(st)]
+    if st < 2:
+        opts.append(('S%d' % st, d, st + 1))
+    for t, d2, st2 in opts:
+        for rest, d3, st3 in _gen_targets(n - 1, d2, st2, nmax, budget - 1):
+            yield [t] + rest, d3, st3
+
+
+def _gen_attrs(k: int, d: int, st: int, nmax: int, budget: int):
+    """All attribute lists with exactly k element-valued attributes."""
+    if k == 0:
+        yield [], d, st, budget
+        return
+    for shape, n in (('s', 1), ('a', 0), ('a', 1), ('a', 2)):
+        if n > budget:
+            continue
+        for tg, d2, st2 in _gen_targets(n, d, st, nmax, budget):
+            attr = ['s', tg[0]] if shape == 's' else ['a', tg]
+            for rest, d3, st3, b3 in _gen_attrs(k - 1, d2, st2, nmax, budget - n):
+                yield [attr] + rest, d3, st3, b3
+
+
+def gen_graphs(nmax: int, slots: int, root_attrs=None):
+    """Every graph on <= nmax elements, <= 2 element attributes each, <= `slots` references in total,
+    every element reachable, elements/stubs numbered in discovery order (each graph exactly once)."""
+    def rec(els, d, st, budget):
+        i = len(els)
+        if i == d:
+            yield els
+            return
+        for k in (0, 1, 2):
+            for attrs, d2, st2, b2 in _gen_attrs(k, d, st, nmax, budget):
+                yield from rec(els + [attrs], d2, st2, b2)
+    if root_attrs is None:
+        yield from rec([], 1, 0, slots)
+    else:
+        # resume below a fixed root (sharding): recompute the discovery state of the root
+        d, st, used = 1, 0, 0
+        for _, t in graph_targets([root_attrs]):
+            used += 1
+            if isinstance(t, int):
+                d = max(d, t + 1)
+            elif t != 'N':
+                st = max(st, int(t[1:]) + 1)
+        yield from rec([root_attrs], d, st, slots - used)
+
+
+def graph_roots(nmax: int, slots: int):
+    for k in (0, 1, 2):
+        for attrs, _d, _st, _b in _gen_attrs(k, 1, 0, nmax, slots):
+            yield attrs
+
+
+# ---------------------------------------------------------------------------------------------
+# KV1 bridge.  tree = [name, value] (leaf) | [name, [children]] (block); the root has name None.
+
+KV_ROUTES = {
+    'direct': None,
+    'bin5': {'enc': 'bin', 'ver': 5, 'uni': 'format'},
+    'bin2': {'enc': 'bin', 'ver': 2, 'uni': 'format'},
+    'kv2': {'enc': 'kv2', 'flat': False, 'cull': False, 'uni': 'format'},
+    'kv2flat': {'enc': 'kv2', 'flat': True, 'cull': True, 'uni': 'format'},
+}
+
+
+def build_kv(node) -> Keyvalues:
+    name, val = node
+    if isinstance(val, list):
+        kids = [build_kv(c) for c in val]
+        return Keyvalues.root(*kids) if name is None else Keyvalues(name, kids)
+    return Keyvalues(name, val)
+
+
+def dump_kv(kv):
+    if not isinstance(kv, Keyvalues):
+        return ['<not a Keyvalues>', repr(kv)]
+    if isinstance(kv._value, list):
+        return [kv._real_name, [dump_kv(c) for c in kv._value]]
+    return [kv._real_name, kv._value]
+
+
+def diff_kv(want, got, path='') -> tuple:
+    """First difference between two dumped trees -> (what, detail) or None."""
+    if isinstance(want[1], list) != isinstance(got[1], list):
+        return 'leaf_vs_block', f'{path}: {got!r}, expected {want!r}'
+    if want[0] != got[0]:
+        what = 'name_case' if (want[0] is not None and got[0] is not None
+                               and want[0].casefold() == got[0].casefold()) else 'name'
+        return what, f'{path}: name {got[0]!r}, expected {want[0]!r}'
+    if not isinstance(want[1], list):
+        if want[1] != got[1]:
+            return 'value', f'{path}/{want[0]}: value {got[1]!r}, expected {want[1]!r}'
+        return None
+    if len(want[1]) != len(got[1]):
+        return 'children', f'{path}/{want[0]}: children {[c[0] for c in got[1]]!r}, expected {[c[0] for c in want[1]]!r}'
+    for n, (a, b) in enumerate(zip(want[1], got[1])):
+        d = diff_kv(a, b, f'{path}/{want[0]}[{n}]')
+        if d:
+            return d
+    return None
+
+
+def kv_class(node) -> str:
+    name, val = node
+    nm = '' if name is None else ('' if strclass(name) == 'plain' else '<' + strclass(name) + '>')
+    if isinstance(val, list):
+        return ('R' if name is None else 'B' + nm) + '(' + ','.join(kv_class(c) for c in val) + ')'
+    return 'L' + nm + ('' if strclass(val) in ('plain', 'empty') else '=' + strclass(val))
+
+
+def kv_valid(node, top=True) -> bool:
+    name, val = node
+    if name is None:
+        if not top or not isinstance(val, list):
+            return False
+    elif '\n' in name or '\r' in name or '\0' in name:
+        return False            # KV1 names never contain line breaks (the KV1 parser rejects them)
+    if isinstance(val, list):
+        return all(kv_valid(c, False) for c in val)
+    return '\0' not in val
+
+
+def kv_reductions(node):
+    name, val = node
+    if isinstance(val, list):
+        for i in range(len(val)):
+            yield [name, val[:i] + val[i + 1:]]
+        for i, c in enumerate(val):
+            if isinstance(c[1], list):          # hoist the children of a block into its place
+                for g in c[1]:
+                    yield [name, val[:i] + [g] + val[i + 1:]]
+        for i, c in enumerate(val):
+            for r in kv_reductions(c):
+                yield [name, val[:i] + [r] + val[i + 1:]]
+    else:
+        for k in range(len(val)):
+            yield [name, val[:k] + val[k + 1:]]
+    if name:
+        for k in range(len(name)):
+            if len(name) > 1:
+                yield [name[:k] + name[k + 1:], val]
+
+
+def _renumber(root: Element) -> None:
+    """from_kv1 draws random UUIDs; replace them by fixed ones so the exported bytes are deterministic."""
+    seen: dict[int, Element] = {}
+    work = [root]
+    while work:
+        e = work.pop(0)
+        if id(e) in seen or isinstance(e, StubElement):
+            continue
+        e.uuid = EU(len(seen))
+        seen[id(e)] = e
+        for a in e.values():
+            if a.type is ValueType.ELEMENT:
+                work.extend(a.iter_elem())
+
+
+def run_kv(tree, route: str):
+    """-> (status, [(kind, what, detail)])"""
+    cfg = KV_ROUTES[route]
+    stage = 'from_kv1'
+    tail = b''
+    try:
+        elem = Element.from_kv1(build_kv(tree))
+        if cfg is not None:
+            _renumber(elem)
+            stage = 'export'
+            buf = io.BytesIO()
+            if cfg['enc'] == 'bin':
+                elem.export_binary(buf, version=cfg['ver'], unicode=cfg['uni'])
+            else:
+                elem.export_kv2(buf, flat=cfg['flat'], cull_uuid=cfg['cull'], unicode=cfg['uni'])
+            tail = buf.getvalue()[-300:]
+            stage = 'parse'
+            elem = Element.parse(io.BytesIO(buf.getvalue()))[0]
+        stage = 'to_kv1'
+        back = dump_kv(elem.to_kv1())
+    except Exception as exc:  # noqa: BLE001
+        return 'raised', [('kv1_raised', stage, f'{stage} raised {type(exc).__name__}: {str(exc)[:300]}'
+                                                + (f'\n exported tail: {tail!r}' if tail else ''))]
+    d = diff_kv(tree, back)
+    if d:
+        return 'mismatch', [('kv1_mismatch', d[0], f'{d[1]}\n returned tree: {core.jdump(back)[:500]}'
+                                                   + (f'\n exported tail: {tail!r}' if tail else ''))]
+    return 'ok', []
+
+
+_KVCACHE: dict[str, tuple] = {}
+
+
+def eval_kv(tree, route):
+    key = core.jdump([tree, route])
+    hit = _KVCACHE.get(key)
+    if hit is None:
+        hit = run_kv(tree, route) if kv_valid(tree) else ('invalid', [])
+        if len(_KVCACHE) > 300000:
+            _KVCACHE.clear()
+        _KVCACHE[key] = hit
+    return hit
+
+
+def check_kv(acc: core.Acc, tree, route: str) -> None:
+    status, fails = eval_kv(tree, route)
+    assert status != 'invalid', tree
+    acc.evaluations += 1
+    if status != 'raised':
+        acc.nontrivial += 1
+    acc.outcome(('kv1', route, status, tuple(k + ':' + w for k, w, _ in fails)))
+    acc.count('kv1_' + status)
+    for kind, what, detail in fails:
+        cur = tree
+        while True:
+            for cand in kv_reductions(cur):
+                if any(k == kind and w == what for k, w, _ in eval_kv(cand, route)[1]):
+                    cur = cand
+                    break
+            else:
+                break
+        acc.fail(kind, {'fam': 'kv1', 'tree': tree, 'route': route},
+                 f'KV1 bridge route={route} tree={core.jdump(tree)}\n {detail}\n minimal failing tree: {core.jdump(cur)}',
+                 route=('direct' if route == 'direct' else KV_ROUTES[route]['enc']), what=what, cause='kv1:' + kv_class(cur))
+
+
+# ---------------------------------------------------------------------------------------------
+# enumeration
+
+UNI = ['ascii', 'format', 'silent']
+ALLCFG = ([{'enc': 'bin', 'ver': v, 'uni': u} for v in (1, 2, 3, 4, 5) for u in UNI]
+          + [{'enc': 'kv2', 'flat': f, 'cull': c, 'uni': u} for f in (False, True) for c in (False, True) for u in UNI])
+GRAPHCFG = [c for c in ALLCFG if c['uni'] == 'ascii']
+GRAPHCFG_TOP = [c for c in GRAPHCFG if c.get('ver') in (2, 5) or (c['enc'] == 'kv2' and c['flat'] == c['cull'])]
+CFGSETS = {'all': ALLCFG, 'graph': GRAPHCFG, 'graphtop': GRAPHCFG_TOP}
+
+NAMES = ['a', 'A', 'id', 'ID', 'we"ird', 'back\\slash', 'sp ace', '\u00e9', '', "it's", 'l1\nl2', 'name', 'Name']
+NAMEKEYS = ['Name', 'NAME']
+REP_GRAPHS = [
+    [[['s', 1]], [['s', 2]], []],                       # chain
+    [[['a', [1, 2]]], [], []],                          # array of two children
+    [[['s', 1], ['s', 2]], [['s', 2]], []],             # DAG sharing
+    [[['s', 0]]],                                       # self reference
+    [[['s', 1]], [['s', 0]]],                           # mutual cycle
+    [[['a', [1, 1]]], []],                              # same child twice in one array
+    [[['s', 'N']]],                                     # NULL scalar
+    [[['a', ['N', 1]], ['s', 1]], []],                  # NULL inside an array + scalar link
+    [[['s', 'S0']]],                                    # stub scalar
+    [[['a', ['S0', 'S0']]]],                            # same stub twice
+    [[['s', 'S0'], ['a', ['S1', 'S0']]]],               # two stubs
+    [[['a', []]]],                                      # empty element array
+    [[['a', [1, 'N', 'S0']], ['s', 0]], [['s', 1]]],    # mixed
+]
+
+
+def val_singles():
+    for vt in TYPES:
+        vals = [v for _, v in VALUES[vt]]
+        for v in vals:
+            yield ['val', vt, 's', v]
+        yield ['val', vt, 'a', []]
+        for v in vals:
+            yield ['val', vt, 'a', [v]]
+        for v, w in itertools.product(vals, repeat=2):
+            yield ['val', vt, 'a', [v, w]]
+
+
+def val_menu(depth: int):
+    """Reduced menu used inside pairs: the first `depth` boundary values of every type."""
+    for vt in TYPES:
+        vals = [v for _, v in VALUES[vt]][:depth]
+        for v in vals:
+            yield ['val', vt, 's', v]
+        yield ['val', vt, 'a', []]
+        if depth <= 2:
+            yield ['val', vt, 'a', [vals[0]]]
+            yield ['val', vt, 'a', [vals[-1], vals[0]]]
+        else:
+            for v in vals:
+                yield ['val', vt, 'a', [v]]
+            for v, w in itertools.product(vals, repeat=2):
+                yield ['val', vt, 'a', [v, w]]
+
+
+def name_feats():
+    for role in ROLES:
+        for s in NAMES:
+            yield ['name', role, s]
+
+
+def dmx_feature_lists(depth: int):
+    """Every document of the feature families, each exactly once (invalid combinations are dropped)."""
+    singles = list(val_singles()) + list(name_feats()) + [['namekey', k] for k in NAMEKEYS] \
+        + [['graph', g] for g in REP_GRAPHS]
+    yield []
+    for f in singles:
+        yield [f]
+    vm = list(val_menu(depth))
+    nm = list(name_feats())
+    nk = [['namekey', k] for k in NAMEKEYS]
+    gr = [['graph', g] for g in REP_GRAPHS]
+    for a, b in itertools.product(vm, repeat=2):        # attribute order matters: ordered pairs
+        yield [a, b]
+    for a, b in itertools.combinations(nm, 2):
+        if a[1] != b[1]:
+            yield [a, b]
+    for a in nm + nk + gr:
+        for b in vm:
+            yield [a, b]
+    for a in nk + gr:
+        for b in nm:
+            yield [a, b]
+    for a in gr:
+        for b in nk:
+            yield [a, b]
+
+
+KV_NAMES = ['a', 'A', 'b']
+KV_RESERVED = ['a', 'name', 'Name', 'subkeys', 'id', 'value']
+KV_SIGMA = ['"', '\\', 'n', 'a', ' ', '\u00e9', "'", '{', '/', 'A', '\n']
+
+
+def kv_forests(n_nodes: int, names, values=('', 'x')):
+    """Every labelled ordered forest with exactly n_nodes nodes: a childless node is a leaf (each value) or an
+    empty block, a node with children is a block."""
+    def label(tree):
+        kid_opts = [label(k) for k in tree]
+        for nm in names:
+            if not tree:
+                for v in values:
+                    yield [nm, v]
+                yield [nm, []]
+            else:
+                for kids in itertools.product(*kid_opts):
+                    yield [nm, list(kids)]
+
+    def label_cached(tree, memo={}):
+        if tree not in memo:
+            memo[tree] = list(label(tree))
+        return memo[tree]
+    label_cached.__defaults__[0].clear()
+    for forest in trees(n_nodes):
+        opts = [list(label(t)) for t in forest]
+        for combo in itertools.product(*opts):
+            yield list(combo)
+
+
+def kv_strings(max_len: int, for_value: bool):
+    sig = KV_SIGMA if for_value else KV_SIGMA[:-1]
+    for n in range(0, max_len + 1):
+        for tup in itertools.product(sig, repeat=n):
+            yield ''.join(tup)
+
+
+def kv_trees(quick: bool):
+    """(tree, routes) for the KV1 bridge."""
+    n_shape = 4 if quick else 5
+    full = ['direct', 'bin5', 'kv2', 'kv2flat', 'bin2']
+    for n in range(0, n_shape + 1):
+        for forest in kv_forests(n, KV_NAMES):
+            yield [None, forest], (full if (n < n_shape or not quick) else full[:3])
+            if n < n_shape:
+                yield ['Top', forest], full[:3]
+    for v in ('', 'x'):
+        yield ['leaf', v], full
+    for n in range(1, 4 if quick else 5):
+        for forest in kv_forests(n, KV_RESERVED, ('x',)):
+            yield [None, forest], full[:4]
+    ls, lp = (2, 1) if quick else (3, 2)
+
+    def ctx(target):
+        return [None, [['ctx', [['pre', '1'], target, ['post', '2']]]]]
+    for s in kv_strings(ls, False):
+        yield ctx([s, 'v']), full[:4]                               # leaf name, inlined as an attribute
+        yield ctx([s, [['in', 'v']]]), full[:4]                     # block name (siblings go to `subkeys`)
+        yield [None, [['ctx', [[s, 'v'], ['blk', []]]]]], full[:4]  # leaf name inside `subkeys`
+    for s in kv_strings(ls, True):
+        yield ctx(['k', s]), full[:4]                               # leaf value
+    for a in kv_strings(lp, False):
+        for b in kv_strings(lp, True):
+            if a and b:
+                yield ctx([a, b]), full[:4]
+
+
+def shard(spec) -> core.Acc:
+    acc = core.Acc()
+    kind = spec[0]
+    if kind == 'dmx':
+        _, cfgset, lists = spec
+        for feats in lists:
+            for cfg in CFGSETS[cfgset]:
+                check_dmx(acc, feats, cfg)
+        if lists:
+            acc.sample({'fam': 'dmx', 'feats': lists[-1], 'cfg': CFGSETS[cfgset][-1]}, 1)
+    elif kind == 'graph':
+        _, nmax, slots, root_attrs = spec
+        n = 0
+        for g in gen_graphs(nmax, slots, root_attrs):
+            top = sum(1 for _ in graph_targets(g)) >= TOP_LAYER[0]
+            for cfg in (GRAPHCFG_TOP if top else GRAPHCFG):
+                check_dmx(acc, [['graph', g]], cfg)
+            n += 1
+            acc.count('graphs_top_layer' if top else 'graphs_all_configs')
+            for t in graph_tags(g):
+                acc.count('graphs_with_' + t)
+        if n and not root_attrs:
+            acc.sample({'fam': 'dmx', 'feats': [['graph', g]], 'cfg': GRAPHCFG[0]}, 1)
+    elif kind == 'kv1':
+        for tree, routes in spec[1]:
+            for r in routes:
+                check_kv(acc, tree, r)
+        acc.sample({'fam': 'kv1', 'tree': spec[1][-1][0], 'route': spec[1][-1][1][-1]}, 1)
+    _CACHE.clear()
+    _KVCACHE.clear()
+    return acc
+
+
+TOP_LAYER = [99]     # graphs with at least this many references use the reduced configuration set (quick tier only)
+
+
+def run(ctx: core.Ctx) -> None:
+    q = ctx.quick
+    depth = 2 if q else 3
+    slots = 4 if q else 5
+    TOP_LAYER[0] = 4 if q else 99
+    shards = []
+    seen = set()
+    lists = []
+    for feats in dmx_feature_lists(depth):
+        if compose(feats) is None:
+            continue
+        key = core.jdump(compose(feats))
+        if key in seen:          # two feature lists that compose to the same document count once
+            continue
+        seen.add(key)
+        lists.append(feats)
+    ndocs = len(lists)
+    for chunk in core.chunked(lists, 120 if q else 400):
+        shards.append(('dmx', 'all', chunk))
+    roots = list(graph_roots(3, slots))
+    for r in roots:
+        shards.append(('graph', 3, slots, r))
+    kvt = [(t, r) for t, r in kv_trees(q) if kv_valid(t)]
+    kseen = set()
+    kv = []
+    for t, r in kvt:
+        key = core.jdump(t)
+        if key not in kseen:
+            kseen.add(key)
+            kv.append((t, r))
+    for chunk in core.chunked(kv, 400 if q else 2000):
+        shards.append(('kv1', chunk))
+    # biggest shards first; the seed only rotates the order within the groups
+    k = ctx.seed % len(shards)
+    shards = shards[k:] + shards[:k]
+    shards.sort(key=lambda s: 0 if s[0] == 'graph' else 1)
+    core.par_map(shard, shards, ctx.acc)
+    ctx.acc.count('feature_documents', ndocs)
+    ctx.acc.count('kv1_trees', len(kv))
+    ctx.rule = (
+        f'DMX: (1) every element graph on root + <= 2 further elements, <= 2 element-valued attributes per element '
+        f'(scalar or array of length 0..2, targets: any element, NULL, two stubs), at most {slots} references in total, '
+        f'every element reachable, generated once each in discovery order, x binary v1..5 and KV2 x flat x cull_uuid'
+        + (' (graphs with exactly 4 references: binary v2/v5, KV2 nested and flat+cull only)' if q else '') +
+        f'; (2) documents composed of <= 2 features on a one-element base: a value attribute (13 non-element types, '
+        f'scalar / array of length 0,1,2 over all boundary values as single features, the first {depth} boundary values per '
+        f'type inside pairs, ordered), a name from {len(NAMES)} strings in one of 7 roles (element type/name, attribute name, '
+        f'child type/name, name of a scalar/array link), {len(REP_GRAPHS)} representative graphs, the `name` attribute assigned '
+        f'through a mixed-case key; x all 27 configurations (binary v1..5 x unicode ascii/format/silent, KV2 x flat x '
+        f'cull_uuid x unicode). Expressibility rule: TIME before binary v3 and non-ASCII text under unicode=ascii must make '
+        f'export raise; everything else must round-trip. Representability (excluded by the generator): strings containing NUL, '
+        f'an attribute literally keyed `name` (that slot is the element name), two keys equal under casefold in one element, '
+        f'element types equal to a value-type keyword, non-finite floats, floats outside float32, times off the 1/10000 s grid. '
+        f'KV1 bridge: every ordered forest of <= {4 if q else 5} nodes (leaf with value ""/"x", empty block or block) over names a/A/b under a root '
+        f'and under a named block, forests of <= {3 if q else 4} nodes over reserved names, every string of length <= {2 if q else 3} over '
+        f'{len(KV_SIGMA)} characters as leaf name / block name / leaf value in a context tree and (name, value) pairs of length <= {1 if q else 2}; '
+        f'routes from_kv1->to_kv1 and from_kv1->export (binary v5, v2, KV2 nested, KV2 flat)->parse->to_kv1. '
+        f'Non-trivial = the exported file was parsed back and compared with the source specification (DMX) / a tree came back (KV1). '
+        f'Each (document, configuration) pair is evaluated once; failing cases are additionally shrunk to a minimal failing document.')
+    ctx.assumptions.append('UUIDs are supplied by the harness (elements and stubs); from_kv1 elements are renumbered before export')
+    ctx.assumptions.append('binary wire layout used by the independent decoder: Valve dmserializers (type codes 1..14 scalar, '
+                           '15..28 array, string table int16/int16 in v2-3, int32/int16 in v4, int32/int32 in v5, element index '
+                           '-1 = NULL, -2 = external element followed by its id as text)')
+    ctx.coverage_extra['configurations'] = len(ALLCFG)
+    ctx.coverage_extra['graph_family_slots'] = slots
+
+
+def replay(case: dict) -> list:
+    acc = core.Acc()
+    if case.get('fam') == 'kv1':
+        check_kv(acc, case['tree'], case['route'])
+    else:
+        check_dmx(acc, case['feats'], case['cfg'])
+    return acc.all_failures()
